@@ -393,28 +393,11 @@ impl ReplayRuntime {
     where
         F: FnOnce() -> Result<Option<IpldBlock>, ActorError>,
     {
-        PANIC_INFO.with(|p| p.replace(None));
-        let prev = std::panic::take_hook();
-        std::panic::set_hook(Box::new(|info| {
-            let msg = if let Some(s) = info.payload().downcast_ref::<&str>() {
-                s.to_string()
-            } else if let Some(s) = info.payload().downcast_ref::<String>() {
-                s.clone()
-            } else {
-                "<non-string panic payload>".to_string()
-            };
-            let loc = info.location().map(|l| format!(" at {}:{}", l.file(), l.line())).unwrap_or_default();
-            PANIC_INFO.with(|p| p.replace(Some(format!("{}{}", msg, loc))));
-        }));
-        let r = catch_unwind(AssertUnwindSafe(f));
-        std::panic::set_hook(prev);
+        let r = catch_panic(f);
         // a panic may have left the transaction flag set
         self.in_transaction.replace(false);
         match r {
-            Err(_) => {
-                let msg = PANIC_INFO.with(|p| p.borrow().clone()).unwrap_or_else(|| "<unknown>".into());
-                CallOutcome { result: format!("panic: {}", msg), error: Some(msg), ret: None }
-            }
+            Err(msg) => CallOutcome { result: format!("panic: {}", msg), error: Some(msg), ret: None },
             Ok(Err(e)) => CallOutcome {
                 result: format!("Err({})", e.exit_code().value()),
                 error: Some(e.msg().to_string()),
@@ -496,6 +479,27 @@ impl ReplayRuntime {
 
 thread_local! {
     static PANIC_INFO: RefCell<Option<String>> = const { RefCell::new(None) };
+}
+
+/// Runs `f`, catching a panic: Err("<message> at <file>:<line>") instead of unwinding further (nothing is
+/// printed on stderr).  Used by `run_call` and by the function-level adapters that have no runtime.
+pub fn catch_panic<T>(f: impl FnOnce() -> T) -> std::result::Result<T, String> {
+    PANIC_INFO.with(|p| p.replace(None));
+    let prev = std::panic::take_hook();
+    std::panic::set_hook(Box::new(|info| {
+        let msg = if let Some(s) = info.payload().downcast_ref::<&str>() {
+            s.to_string()
+        } else if let Some(s) = info.payload().downcast_ref::<String>() {
+            s.clone()
+        } else {
+            "<non-string panic payload>".to_string()
+        };
+        let loc = info.location().map(|l| format!(" at {}:{}", l.file(), l.line())).unwrap_or_default();
+        PANIC_INFO.with(|p| p.replace(Some(format!("{}{}", msg, loc))));
+    }));
+    let r = catch_unwind(AssertUnwindSafe(f));
+    std::panic::set_hook(prev);
+    r.map_err(|_| PANIC_INFO.with(|p| p.borrow().clone()).unwrap_or_else(|| "<unknown>".into()))
 }
 
 impl MessageInfo for ReplayRuntime {
